@@ -399,6 +399,7 @@ def extract_name_grammar(model: Model) -> dict:
     sep = None
     prefix = None
     cond = None
+    cond_node = None
     for n in ast.walk(gfi.node):
         if isinstance(n, ast.Call) and callee_tail(n) == "join" and isinstance(n.func.value, ast.Constant):
             sep = n.func.value.value
@@ -408,6 +409,7 @@ def extract_name_grammar(model: Model) -> dict:
                         and norm(b.value.right) == "name":
                     prefix = b.value.left.value
                     cond = norm(n.test)
+                    cond_node = n
     fmt = None
     letter_rule = None
     for n in ast.walk(nfi.node):
@@ -418,7 +420,7 @@ def extract_name_grammar(model: Model) -> dict:
     maxlen = model.mod("glyph").const("_MAX_NAME_LEN")
     if sep is None or prefix is None or fmt is None or cond is None:
         raise AnalysisError("glyph.py: separator / prefix / hex format / prefix condition not found in the enumerated shape")
-    return {"sep": sep, "prefix": prefix, "cond": cond, "fmt": fmt, "letter_rule": letter_rule, "maxlen": maxlen.value if isinstance(maxlen, ast.Constant) else None}
+    return {"sep": sep, "prefix": prefix, "cond": cond, "cond_node": cond_node, "fmt": fmt, "letter_rule": letter_rule, "maxlen": maxlen.value if isinstance(maxlen, ast.Constant) else None}
 
 
 def decode(name: str, sep: str) -> str:
@@ -460,6 +462,16 @@ def r04e_impl(model: Model, rr: RuleResult):
     hashes = [n for n in ast.walk(gfi.node) if isinstance(n, ast.Call) and norm(n.func) in ("hashlib.sha1", "base64.b32encode")]
     if len(hashes) >= 2:
         rr.ok("long names: sha1 -> base32")
+    # the first-character test is applied to whatever name is returned (a base32 digest may start with 2-7)
+    gcfg = cfg_of(gfi)
+    rets = [st for st in walk_body(gfi) if isinstance(st, ast.Return) and st.value is not None]
+    tnode = gcfg.node_for(g["cond_node"])
+    if rets and all(gcfg.dominates(tnode, gcfg.node_for(r)) for r in rets) and not any(
+            d.node != gcfg.node_for(g["cond_node"].body[0]) and gcfg.dominates(tnode, d.node) for r in rets for d in gcfg.reaching(gcfg.node_for(r), "name")):
+        rr.ok("every returned name passes the first-character test after its last modification (hashed names included)")
+    else:
+        rr.bad(gfi, g["cond_node"], "a path returns a name that did not pass the first-character test (e.g. the base32 digest of a long sequence, which starts with a digit "
+               "in about one case out of five): such a name is not a legal feature-file glyph name", construct="glyph_name: return not dominated by the prefix test")
 
 
 @RULES.rule("C04", "R04e", "glyph names of distinct codepoint sequences are distinct (regular-language abstraction of glyph_name)", floor=3)
